@@ -235,6 +235,34 @@ class CallMixin:
                 finally:
                     self.frames.pop()
 
+    def format_concat(self, args):
+        """_format(template, *args) for a literal template with plain {n} fields of str
+        arguments is concatenation (the value carries meaning, e.g. a name or a pattern)."""
+        import re as _re
+        t = self.res(args[0])
+        tmpl = t.concrete() if isinstance(t, VStr) else None
+        if tmpl is None or '{{' in tmpl or '}}' in tmpl:
+            return None
+        parts = _re.split(r'(\{[^{}]*\})', tmpl)
+        out = None
+        for p in parts:
+            if p.startswith('{') and p.endswith('}'):
+                if not _re.fullmatch(r'\{\d+\}', p):
+                    return None
+                idx = int(p[1:-1]) + 1
+                if idx >= len(args):
+                    return None
+                v = self.res(args[idx]) if not self.is_unresolved(args[idx]) else None
+                if not isinstance(v, VStr):
+                    return None
+                term = v.t
+            else:
+                if p == '':
+                    continue
+                term = z3.StringVal(p)
+            out = term if out is None else z3.Concat(out, term)
+        return VStr(out if out is not None else z3.StringVal(''))
+
     def callee_contract(self, fi):
         tc = self.top_contract
         if tc is not None:
@@ -249,6 +277,10 @@ class CallMixin:
             self.used_assumptions.add(f'A-NOOP:{fi.qualname}')
             return NONE
         if fi.name in DEFAULT_OPAQUE_STR and fi.cls is None:
+            if fi.name == '_format' and args and not kwargs:
+                r = self.format_concat(args)
+                if r is not None:
+                    return r
             self.used_assumptions.add('A-FMT: _format()/_ascii2() are total and return an unconstrained string')
             return VStr(z3.String(self.fresh_name('fmt')))
         if fi.name in DEFAULT_OPAQUE_INT and fi.cls is None:
